@@ -22,26 +22,28 @@ theorem validAll_of (u : DP) (cs : List Call) (h1 : setValidAll u cs) (h2 : memb
     have b := h2.1
     cases c <;> first | exact a | exact b | trivial
 
-/-- the modelled nodes never declare VTEPs, routes or pass-through objects -/
+/-- the modelled nodes never declare VTEPs or routes -/
 theorem others_untouched : ∀ (cs : List Call) (u : DP), setValidAll u cs →
-    (upAll u cs).vtep = u.vtep ∧ (upAll u cs).route = u.route ∧ (upAll u cs).gen = u.gen
-  | [], u, _ => ⟨rfl, rfl, rfl⟩
+    (upAll u cs).vtep = u.vtep ∧ (upAll u cs).route = u.route
+  | [], u, _ => ⟨rfl, rfl⟩
   | c :: cs, u, h => by
     have ih := others_untouched cs (upApply u c) h.2
-    have hc : (upApply u c).vtep = u.vtep ∧ (upApply u c).route = u.route ∧ (upApply u c).gen = u.gen := by
+    have hc : (upApply u c).vtep = u.vtep ∧ (upApply u c).route = u.route := by
       have a := h.1
       cases c with
-      | ipsetAdded id t => exact ⟨rfl, rfl, rfl⟩
-      | ipsetRemoved id => exact ⟨rfl, rfl, rfl⟩
-      | memberAdded id m => simp only [upApply]; split <;> exact ⟨rfl, rfl, rfl⟩
-      | memberRemoved id m => simp only [upApply]; split <;> exact ⟨rfl, rfl, rfl⟩
-      | policyActive k r => exact ⟨rfl, rfl, rfl⟩
-      | policyInactive k => exact ⟨rfl, rfl, rfl⟩
-      | profileActive k r => exact ⟨rfl, rfl, rfl⟩
-      | profileInactive k => exact ⟨rfl, rfl, rfl⟩
-      | endpointUpdate k v => cases v <;> exact ⟨rfl, rfl, rfl⟩
+      | ipsetAdded id t => exact ⟨rfl, rfl⟩
+      | ipsetRemoved id => exact ⟨rfl, rfl⟩
+      | memberAdded id m => simp only [upApply]; split <;> exact ⟨rfl, rfl⟩
+      | memberRemoved id m => simp only [upApply]; split <;> exact ⟨rfl, rfl⟩
+      | policyActive k r => exact ⟨rfl, rfl⟩
+      | policyInactive k => exact ⟨rfl, rfl⟩
+      | profileActive k r => exact ⟨rfl, rfl⟩
+      | profileInactive k => exact ⟨rfl, rfl⟩
+      | endpointUpdate k v => cases v <;> exact ⟨rfl, rfl⟩
+      | genUpdate c k t => exact ⟨rfl, rfl⟩
+      | genRemove c k => exact ⟨rfl, rfl⟩
       | _ => exact absurd a (by simp [mainCall])
     simp only [upAll, List.foldl_cons] at ih ⊢
-    exact ⟨ih.1.trans hc.1, ih.2.1.trans hc.2.1, ih.2.2.trans hc.2.2⟩
+    exact ⟨ih.1.trans hc.1, ih.2.trans hc.2⟩
 
 end CalicoVerif.C01
